@@ -4,6 +4,10 @@ import json, re
 res = json.load(open("/verif/seeded/results.json"))
 import importlib.util
 spec = importlib.util.spec_from_file_location("sm", "/verif/tools/seed_meta.py"); sm = importlib.util.module_from_spec(spec); spec.loader.exec_module(sm)
+OWN = {"r3A_m1": "C07", "r3A_m2": "C06", "r3A_m3": "C06", "r3A_m4": "C07", "r3B_m1": "C04", "r3B_m2": "C03", "r3B_m3": "C08",
+       "r3B_m4": "C04", "r3C_m1": "C01", "r3C_m2": "C05", "r3C_m3": "C10", "r3C_m4": "C13", "r3C_m5": "C18"}
+
+
 def how(d):
     # "h_try_from on k9_i128_gap [TF]: ..." -> harness + declaration
     s = d.get("first_violation", "") or ""
@@ -25,26 +29,26 @@ def how(d):
         mm = re.search(r"documented combination does not compile: (#\[enum_tools\([^\]]*\)\])", s)
         return "base case %s rejected (rustc)" % (mm.group(1)[:60] if mm else "")
     return s.strip()[:60]
-rows = ["| change | what it needs (short) | own property: v1 / v2 / v3 | caught by (latest run) |", "|---|---|---|---|"]
+rows = ["| change | what it needs (short) | own property: v1 / v2 / v3 / v4 | caught by (latest run) |", "|---|---|---|---|"]
 cross = ["| change | other property checked | verdict | caught by |", "|---|---|---|---|"]
 for name in sorted(res):
-    own = name.split("_")[0]
+    own = OWN.get(name, name.split("_")[0])
     needs = sm.DESC.get(name, ("", "", ""))[2]
     needs = needs[:110] + ("…" if len(needs) > 110 else "")
     vs = []
     latest = None
-    for v in ("v1", "v2", "v3"):
+    for v in ("v1", "v2", "v3", "v4"):
         d = res[name].get(v, {}).get(own)
         vs.append(d["verdict"] if d else "–")
         if d:
             latest = d
     hw = ""
-    for v in ("v3", "v2", "v1"):
+    for v in ("v4", "v3", "v2", "v1"):
         d = res[name].get(v, {}).get(own)
         if d and d.get("first_violation"):
             hw = how(d); break
     rows.append("| %s | %s | %s | %s |" % (name, needs, " / ".join(vs), hw or "(see seeded/%s/meta.json)" % name))
-    for v in ("v3", "v2", "v1"):
+    for v in ("v4", "v3", "v2", "v1"):
         for prop, d in sorted(res[name].get(v, {}).items()):
             if prop != own:
                 cross.append("| %s | %s | %s | %s |" % (name, prop, d["verdict"], how(d)))
